@@ -11,14 +11,7 @@ sys.path.insert(0, HERE)
 from sverif import engine  # noqa: E402
 
 ALL = ["C%02d" % i for i in range(1, 21)]
-NA = {
-    "C15": "static analysis does not apply: the property is the numeric value produced by digit-string arithmetic "
-           "(StringNumber add/shift, separator bookkeeping); no clause of it is visible in the shape of the code, and "
-           "any rule would either restate the algorithm or match frozen source fragments (DESIGN.md §6)",
-    "C17": "static analysis does not apply: exactness of interval cutting / bisection at every range boundary is an "
-           "arithmetic fact about runtime values; the only structural handle (Ok(i)->i+1 / Err(i)->i) is tied to one "
-           "representation and would fire on behaviour-preserving re-encodings (DESIGN.md §6)",
-}
+NA = {}
 
 TECH = {
     "C01": "index-space (units-of-measure) dataflow + dependency slices + who-may-write over typed HIR/MIR",
@@ -35,6 +28,10 @@ TECH = {
     "C12": "guard intervals on dictionary capacity, dependency/ordering rules on POS rebasing",
     "C13": "OOV provider node-shape sibling rule + total-lattice guard rule",
     "C14": "who-may-mutate rule on the path vector + dependency slices on merged nodes",
+    "C15": "constructor/reset sibling agreement, accumulator-flow ordering, guarded-join truth table (reachability under parser.done()), "
+           "constant-folded character table (typed HIR); the digit-string arithmetic itself is NOT decided",
+    "C17": "accumulate-by-union write rule, boundary-insertion completeness, half-open convention agreement between reader / compile / "
+           "bisection by value-point reachability (typed HIR); exactness of the table for runtime data is NOT decided",
     "C16": "dependency slice on the non-break veto + must-call veto table + coverage rule on the iterator",
     "C18": "type-graph audit for interior mutability, unsafe/static inventory, compile-pass/compile-fail witnesses",
     "C19": "delegation sibling table (Python accessor -> core accessor), guard rule on strip_eol, column-order rule",
